@@ -241,6 +241,15 @@ impl<'a> YamlEmitter<'a> {
                 Ok(())
             }
             Yaml::Value(Scalar::Integer(v)) => Ok(write!(self.writer, "{v}")?),
+            // `Display` prints `inf` and `NaN`, which are strings in YAML.
+            Yaml::Value(Scalar::FloatingPoint(ref v)) if v.is_nan() => {
+                Ok(self.writer.write_str(".nan")?)
+            }
+            Yaml::Value(Scalar::FloatingPoint(ref v)) if v.is_infinite() => {
+                Ok(self
+                    .writer
+                    .write_str(if v.is_sign_positive() { ".inf" } else { "-.inf" })?)
+            }
             Yaml::Value(Scalar::FloatingPoint(ref v)) => Ok(write!(self.writer, "{v}")?),
             Yaml::Value(Scalar::Null) | Yaml::BadValue => Ok(write!(self.writer, "~")?),
             Yaml::Representation(ref v, style, ref tag) => {
